@@ -61,17 +61,12 @@ impl GameMods {
         match self {
             Self::Lazer(ref mods) => mods
                 .iter()
-                .find_map(|m| {
-                    let default = match m.intermode() {
-                        GameModIntermode::DoubleTime | GameModIntermode::HalfTime => {
-                            return m.clock_rate()
-                        }
-                        GameModIntermode::Nightcore => 1.5,
-                        GameModIntermode::Daycore => 0.75,
-                        _ => return None,
-                    };
-
-                    Some(default * (m.clock_rate()? / default))
+                .find_map(|m| match m.intermode() {
+                    GameModIntermode::DoubleTime
+                    | GameModIntermode::HalfTime
+                    | GameModIntermode::Nightcore
+                    | GameModIntermode::Daycore => m.clock_rate(),
+                    _ => None,
                 })
                 .unwrap_or(1.0),
             Self::Intermode(ref mods) => mods.legacy_clock_rate(),
